@@ -14,7 +14,7 @@ Core Lean only (`Rat` is core), executable, evaluable by `decide +kernel`.
   comparisons are those of the rationals; `val()` returns the rational; a float operand is first
   converted as `add_scaling` does (`int(f·2^r)`: truncation toward zero); `x << n` multiplies the
   represented number by `2^n`, `x >> n` divides it by `2^n` flooring to the grid (the library shifts
-  the representation); a zero divisor yields the marker `raises`.
+  the representation); a zero divisor and a negative shift count yield the marker `raises`.
 * `fxRel r`: the register relation (decidable): a fixed-point register's representation equals
   (reference rational)·2^r; integer and boolean registers carry the reference integer; floats the
   reference rational; containers element-wise.
@@ -131,7 +131,7 @@ def fxBinFx (r : Nat) (op : BinOp) (wa wb : FxV) : FxRes FxV :=
     | _, _ => .unspec
   | .rshift =>
     match wa, wb with
-    | .fx q, .int n => if n < 0 then .unspec else .val (.fx (fxFloor r (q / 2 ^ n.toNat)))
+    | .fx q, .int n => if n < 0 then .raises else .val (.fx (fxFloor r (q / 2 ^ n.toNat)))
     | _, _ => .unspec
   | _ =>
     match wa.num? r, wb.num? r with
@@ -225,8 +225,11 @@ def fxSmallSame : FxV → FxV → Bool
   | .none, .none => true
   | _, _ => false
 
+def FxV.isSBool : FxV → Bool | .sbool _ => true | _ => false
+
 /-- selection by a boolean secret of value `c` between two numbers: the result is a fixed-point
-value as soon as one branch is (the other branch is converted), else an integer secret -/
+value as soon as one branch is (the other branch is converted); a boolean secret when both branches
+are boolean secrets; else an integer secret -/
 def fxSel (r : Nat) (c : Int) (t f : FxV) : FxRes FxV :=
   if t.isFx || f.isFx then
     match t.num? r, f.num? r with
@@ -234,7 +237,9 @@ def fxSel (r : Nat) (c : Int) (t f : FxV) : FxRes FxV :=
     | _, _ => .unspec
   else
     match t.int?, f.int? with
-    | some a, some b => .val (.sint (if c = 1 then a else b))
+    | some a, some b =>
+      if t.isSBool && f.isSBool then .val (.sbool (if c = 1 then a else b))
+      else .val (.sint (if c = 1 then a else b))
     | _, _ => .unspec
 
 /-- `if_then_else(c, t, f)`; `same` = the two branches are the same register -/
@@ -387,13 +392,8 @@ inductive FxExcl
   /-- `set res` while a register holds a fixed-point value: the library does not rescale existing
   values, so the number such a value stands for changes (the statement fixes one resolution) -/
   | resAfterFxp
-  /-- RECORDED DEVIATION, finding C14-lincomb-strict-compare-fxp: `LinComb < LinCombFxp` and
-  `LinComb > LinCombFxp` (integer secret on the LEFT) subtract the fixed-point 1 -/
-  | lincombStrictCompareFxp
   /-- a literal containing a secret: not a value the API can produce -/
   | secretLiteral
-  /-- RECORDED DEVIATION, finding C05-rshift-negative: `x >> n` with `n < 0` slices from the end -/
-  | negativeShift
   /-- RECORDED DEVIATION, finding C05-secret-exponent-mod-p: a secret shift count goes through
   `2 ** secret`, reduced modulo the field prime -/
   | secretShift
@@ -440,11 +440,8 @@ end
 def fxExclBin (op : BinOp) (a b : Val) : Option FxExcl :=
   if a.isFxp || b.isFxp then
     match op with
-    | .add | .sub | .mul | .truediv | .floordiv | .mod | .divmod | .le | .ge | .eq | .ne =>
+    | .add | .sub | .mul | .truediv | .floordiv | .mod | .divmod | .lt | .le | .ge | .gt | .eq | .ne =>
       if a.fxNumK && b.fxNumK then none else some .operandKind
-    | .lt | .gt =>
-      if a.isLc then some .lincombStrictCompareFxp
-      else if a.fxNumK && b.fxNumK then none else some .operandKind
     | .lshift =>
       match a, b with
       | .fxp _, .int _ => none
@@ -452,7 +449,7 @@ def fxExclBin (op : BinOp) (a b : Val) : Option FxExcl :=
       | _, _ => some .operandKind
     | .rshift =>
       match a, b with
-      | .fxp _, .int n => if n < 0 then some .negativeShift else none
+      | .fxp _, .int _ => none
       | .fxp _, .lc _ => some .secretShift
       | _, _ => some .operandKind
     | .pow => some .fxpPow
